@@ -292,10 +292,12 @@ func c12stepCases(rng *sx.Rng, n int) {
 		d.set("unknown", dMap(dkv{unknownKey, dList(dStr(sx.Pick(rng, tok)), dInt(1))}))
 		cs, text, err := stepFromDoc(d)
 		if err != nil {
+			oracleFail("C12", "step-rejected", sx.A(text), "a generated, well-formed command step does not load: "+err.Error())
 			continue
 		}
 		ds, derr := docSexp(text)
 		if derr != nil {
+			oracleFail("C12", "step-rejected", sx.A(text), "a generated, well-formed command step does not decode: "+derr.Error())
 			continue
 		}
 		pl := sx.List{}
